@@ -258,8 +258,10 @@ func (m *Map[K, V]) LoadOrStore(key K, value V) (actual V, loaded bool) {
 }
 func (m *Map[K, V]) Range(f func(key K, value V) bool) {
 	m.m.Range(func(key, value interface{}) bool {
+		// Comma-ok for the key as well: with an interface key type the nil interface is a valid key.
+		k, _ := key.(K)
 		v, _ := value.(V)
-		return f(key.(K), v)
+		return f(k, v)
 	})
 }
 func (m *Map[K, V]) Store(key K, value V) {
